@@ -395,6 +395,8 @@ def _json_walk(ctx: Ctx, j: Judge, b: go.Built, text: str, cv: bool) -> None:
         k = ctx.ch.draw(len(_JSON_EDGES) + 1, "json.edge")
         if k == len(_JSON_EDGES) and isinstance(container, dict):
             del container[key]
+        elif k == len(_JSON_EDGES) and isinstance(container, list):
+            container.insert(key, json.loads(json.dumps(saved)))  # an array entry twice (undone below by the pop)
         else:
             container[key] = _JSON_EDGES[k % len(_JSON_EDGES)]
         edited = json.loads(json.dumps(doc))
@@ -403,6 +405,8 @@ def _json_walk(ctx: Ctx, j: Judge, b: go.Built, text: str, cv: bool) -> None:
         ctx.probe("json-edit-" + ("accepted" if ok else "refused"))
         if ok:
             j.call(f"{b.name}.serialize/{cls}", lambda got=got: b.codec.ser(got, cv))
+        if isinstance(container, list) and k == len(_JSON_EDGES):
+            container.pop(key)
         container[key] = saved
 
 
